@@ -18,6 +18,15 @@ package main
 // that never reads.  Observed: was the handler's session context cancelled within
 // SendTimeout + slack.
 //
+// store = "busy" (session cases whose composition contains the SQLite handler): the handler runs on a
+// file-backed database (in a directory of its own under os.MkdirTemp, removed afterwards) with
+// EventBulkInsertNum = 1, and a second database connection holds the write lock (BEGIN IMMEDIATE) from
+// before the session starts until its ending has been observed: the bulk inserter is stalled in its
+// first insertion, the hand-over queue (2 x EventBulkInsertNum) fills up, and the session is ended
+// (by cancellation) while the hand-over of a further EVENT is waiting.  The lock is released as soon as
+// the observation "returned / did not return within the bound" has been made, so that nothing of a
+// stuck session outlives its case.
+//
 // Nothing that depends on timing is written out except these yes/no observations; the bounds are
 // generous (3 s to return, 1 s of retries before a goroutine counts as leaked, send timeout + 2.5 s for the drop).
 
@@ -29,6 +38,8 @@ import (
 	"io"
 	"log/slog"
 	"net/http/httptest"
+	"os"
+	"path/filepath"
 	"runtime"
 	"strings"
 	"sync"
@@ -74,6 +85,8 @@ type c13Case struct {
 	// Companion > 0: a second session on the same handler subscribes to everything and then stops
 	// reading while this session runs (its router queue fills up); both must end and release everything
 	Companion int `json:"companion,omitempty"`
+	// Store = "busy": another writer holds the SQLite database for the whole session (see above)
+	Store string `json:"store,omitempty"`
 	StMs      int `json:"st_ms"`
 	PingMs int      `json:"ping_ms"`
 	Obs    c13Obs   `json:"obs"`
@@ -108,6 +121,76 @@ type c13Built struct {
 	routers []*mocrelay.RouterHandler
 	reg     *prometheus.Registry
 	cleanup func()
+	unlock  func() // store = "busy": lets the other writer go (idempotent); nil otherwise
+}
+
+const c13BusyBulkNum = 1 // EventBulkInsertNum of the busy store: the hand-over queue holds 2
+
+// c13SqliteBusy: the SQLite handler on a file-backed database that another connection keeps
+// write-locked.  Every wait is bounded; the directory is removed by the cleanup.
+func c13SqliteBusy(b *c13Built, cleanups *[]func()) mocrelay.Handler {
+	dir, err := os.MkdirTemp("", "verif-c13-")
+	if err != nil {
+		panic(err)
+	}
+	path := filepath.Join(dir, "store.db")
+	db, err := sql.Open("sqlite3", path)
+	if err != nil {
+		os.RemoveAll(dir)
+		panic(err)
+	}
+	hctx, hcancel := context.WithCancel(context.Background())
+	var db2 *sql.DB
+	var locker *sql.Conn
+	released := false
+	unlock := func() {
+		if released {
+			return
+		}
+		released = true
+		if locker != nil {
+			c, cancel := context.WithTimeout(context.Background(), 2*time.Second)
+			locker.ExecContext(c, "ROLLBACK")
+			cancel()
+		}
+	}
+	*cleanups = append(*cleanups, func() {
+		unlock()
+		hcancel()
+		deadline := time.Now().Add(2 * time.Second)
+		for time.Now().Before(deadline) && c13CountGoroutines("sqlite.(*simpleSQLiteHandler).serveBulkInsert") > 0 {
+			time.Sleep(2 * time.Millisecond)
+		}
+		if locker != nil {
+			locker.Close()
+		}
+		if db2 != nil {
+			db2.Close()
+		}
+		db.Close()
+		os.RemoveAll(dir)
+	})
+	h, err := mocsqlite.NewSQLiteHandler(hctx, db, &mocsqlite.SQLiteHandlerOption{
+		EventBulkInsertNum: c13BusyBulkNum, EventBulkInsertDur: 0, MaxLimit: mocsqlite.NoLimit})
+	if err != nil {
+		panic(err)
+	}
+	// the other writer
+	db2, err = sql.Open("sqlite3", path)
+	if err != nil {
+		panic(err)
+	}
+	c, cancel := context.WithTimeout(context.Background(), 5*time.Second)
+	defer cancel()
+	locker, err = db2.Conn(c)
+	if err != nil {
+		panic(err)
+	}
+	if _, err := locker.ExecContext(c, "BEGIN IMMEDIATE"); err != nil {
+		panic(err)
+	}
+	b.unlock = unlock
+	return h
 }
 
 func c13Sqlite(cleanups *[]func()) mocrelay.Handler {
@@ -134,9 +217,27 @@ func c13Sqlite(cleanups *[]func()) mocrelay.Handler {
 	return h
 }
 
-func c13Build(comp, mw int) *c13Built {
-	b := &c13Built{}
+func c13Build(comp, mw int, store string) (b *c13Built) {
+	b = &c13Built{}
 	var cleanups []func()
+	b.cleanup = func() {
+		for _, f := range cleanups {
+			f()
+		}
+	}
+	defer func() {
+		// a construction that fails half-way releases what it has taken
+		if r := recover(); r != nil {
+			b.cleanup()
+			panic(r)
+		}
+	}()
+	sqlite := func() mocrelay.Handler {
+		if store == "busy" {
+			return c13SqliteBusy(b, &cleanups)
+		}
+		return c13Sqlite(&cleanups)
+	}
 	router := func() mocrelay.Handler {
 		r := mocrelay.NewRouterHandler(4)
 		b.routers = append(b.routers, r)
@@ -151,11 +252,11 @@ func c13Build(comp, mw int) *c13Built {
 	case 2:
 		h = router()
 	case 3:
-		h = c13Sqlite(&cleanups)
+		h = sqlite()
 	case 4:
 		h = mocrelay.NewMergeHandler(mocrelay.NewCacheHandler(8), router())
 	case 5: // as in cmd/mocrelay/main.go
-		h = mocrelay.NewMergeHandler(mocrelay.NewCacheHandler(8), router(), c13Sqlite(&cleanups))
+		h = mocrelay.NewMergeHandler(mocrelay.NewCacheHandler(8), router(), sqlite())
 	case 6:
 		h = mocrelay.NewMergeHandler(mocrelay.NewDefaultHandler(), mocrelay.NewCacheHandler(8), router(), router())
 	case 7: // nested merge
@@ -191,11 +292,6 @@ func c13Build(comp, mw int) *c13Built {
 		h = mocrelay.NewLoggingMiddleware(discard)(h)
 	}
 	b.h = h
-	b.cleanup = func() {
-		for _, f := range cleanups {
-			f()
-		}
-	}
 	return b
 }
 
@@ -255,7 +351,7 @@ func c13RunSession(c *c13Case) {
 			c.Obs.Panic = fmt.Sprint(r)
 		}
 	}()
-	b := c13Build(c.Comp%c13NComp, c.Mw%c13NMw)
+	b := c13Build(c.Comp%c13NComp, c.Mw%c13NMw, c.Store)
 	defer b.cleanup()
 	// let the handler's own goroutines (SQLite bulk insert) start before the baseline is taken
 	time.Sleep(time.Millisecond)
@@ -379,6 +475,10 @@ func c13RunSession(c *c13Case) {
 	}
 	t.Stop()
 	stop()
+	if b.unlock != nil {
+		// the observation is made: the other writer lets go, whatever is stuck behind the store gets free
+		b.unlock()
+	}
 	c.Obs.Panic = panicked
 	if c.Companion > 0 {
 		ccancel()
@@ -571,8 +671,51 @@ func c13GenSession(r *common.Rand, idx int) c13Case {
 			c.Hist = append(c.Hist, c13Msg{T: "EVENT", Ev: &e})
 		}
 		c.End, c.Peer = common.Pick(r, []string{"cancel", "close"}), "drain"
+	} else if r.Chance(5) {
+		c13GenBusy(r, &c)
 	}
 	return c
+}
+
+// c13GenBusy: the SQLite store is busy (another writer holds it) during the session.  The history is
+// EVENT-heavy and cut right after its T-th EVENT, T mostly 2 x EventBulkInsertNum + 2: one EVENT in
+// the stalled insertion, the queue full, and the hand-over of the last one waiting when the session
+// is cancelled; sometimes fewer (nothing waits) and rarely one more (it cannot even be handed to the
+// session: back-pressure, costs the feed bound).  The peer drains or has stopped reading.
+func c13GenBusy(r *common.Rand, c *c13Case) {
+	c.Store = "busy"
+	c.Comp = common.Pick(r, []int{3, 3, 5})
+	c.Companion = 0
+	full := 2*c13BusyBulkNum + 2
+	target := full
+	switch k := r.Intn(100); {
+	case k < 8:
+		target = full - 1
+	case k < 15:
+		target = 1 + r.Intn(full-2)
+	case k < 19:
+		target = full + 1
+	}
+	c.Hist = nil
+	for n, i := 0, 0; n < target && i < 24; i++ {
+		m := c13GenMsg(r, i)
+		if m.T != "EVENT" && r.Chance(70) {
+			continue
+		}
+		if m.T == "EVENT" {
+			// well-formed as the admission gate guarantees (hex id / pubkey / sig): the SQLite handler
+			// silently skips anything else, and then nothing ever reaches the store; distinct ids
+			m.Ev.ID = fmt.Sprintf("%064x", 200+n)
+			m.Ev.PK = fmt.Sprintf("%064x", 0xa0+r.Intn(3))
+			m.Ev.Sig = fmt.Sprintf("%0128x", 1)
+			m.Ev.Kind = common.Pick(r, []int64{1, 1, 1, 0, 10000, 30000})
+			m.Ev.Tags = [][]string{{common.Pick(r, []string{"t", "d"}), "v1"}}
+			n++
+		}
+		c.Hist = append(c.Hist, m)
+	}
+	c.End = "cancel"
+	c.Peer = common.Pick(r, []string{"drain", "drain", "stall"})
 }
 
 var c13WsConfigs = [][2]int{{100, 0}, {100, 20}, {300, 1000}, {300, 0}, {100, 1000}, {300, 20}}
